@@ -5,6 +5,7 @@
 #include <rtosc/rtosc.h>
 #include <rtosc/undo-history.h>
 #include <cstring>
+#include <climits>
 #include <cmath>
 
 using namespace sim;
@@ -82,7 +83,7 @@ struct UndoWorld : World {
                 last[a] = o.a[2];
             } else if (u < p_rec + p_seek) {
                 o.kind = OP_SEEK; double s = pr.unit();
-                o.a[0] = s < 0.4 ? -1 : s < 0.6 ? 1 : s < 0.8 ? -(int64_t)pr.below(26) : s < 0.95 ? (int64_t)pr.below(26) : (pr.chance(0.5) ? -25 : 25);
+                o.a[0] = s < 0.4 ? -1 : s < 0.6 ? 1 : s < 0.8 ? -(int64_t)pr.below(26) : s < 0.93 ? (int64_t)pr.below(26) : s < 0.97 ? (pr.chance(0.5) ? -25 : 25) : pr.pick(std::vector<int64_t>{INT_MAX, INT_MIN, INT_MAX - 1, INT_MIN + 1, 1000000, -1000000});   // also the extreme distances an int can hold
             } else if (k[K_ROBUST] && pr.chance(0.15)) { o.kind = OP_CLOCK_BACK; o.a[0] = 1 + (int64_t)pr.below(5000); }
             else {
                 o.kind = OP_CLOCK; double s = pr.unit();
@@ -124,7 +125,7 @@ struct UndoWorld : World {
                 if (op.kind == OP_RECORD) { int a = (int)(((op.a[0] % NADDR) + NADDR) % NADDR); char t = type_of(op); V o = mkv(t, op.a[1]), n = mkv(t, op.a[2]); char buf[1024]; char ts[4] = {'s', t, t, 0};
                     rtosc_arg_t args[3]; args[0].s = ADDRS[a]; put_arg(args[1], o); put_arg(args[2], n);
                     rtosc_amessage(buf, sizeof buf, "/undo_change", ts, args); hist->recordEvent(buf); }
-                else hist->seekHistory((int)std::max<int64_t>(-1000, std::min<int64_t>(op.a[0], 1000)));
+                else hist->seekHistory((int)std::max<int64_t>(INT_MIN, std::min<int64_t>(op.a[0], INT_MAX)));
                 if (hist->size() > 20 || hist->getPos() > hist->size()) { snprintf(b, sizeof b, "op %d: pos=%u size=%zu breaks pos <= size <= 20", opi, hist->getPos(), hist->size()); fail("BOUNDS", b); break; }
                 continue;
             }
@@ -153,7 +154,7 @@ struct UndoWorld : World {
                 if (tail) { stat_add(P_RECORD_AFTER_UNDO); crossed = true; }
                 trace(mix64(hist->getPos(), hist->size()));
             } else if (op.kind == OP_SEEK) {
-                int kk = (int)std::max<int64_t>(-1000, std::min<int64_t>(op.a[0], 1000));
+                int kk = (int)std::max<int64_t>(INT_MIN, std::min<int64_t>(op.a[0], INT_MAX));
                 long dest = (long)model.pos + kk; if (dest < 0) { stat_add(P_SEEK_CLAMP_LO); crossed = true; } if (dest > (long)model.h.size()) { stat_add(P_SEEK_CLAMP_HI); crossed = true; }
                 if (model.pos < model.h.size() && model.h.size() == model.cap) stat_add(P_EVICT_CURSOR_LT_SIZE);
                 emitted.clear(); hist->seekHistory(kk);
